@@ -172,3 +172,998 @@ Qed.
 
 Lemma tsum_ext g h a : (forall i, g i (slot_at a i) = h i (slot_at a i)) -> tsum g a = tsum h a.
 Proof. intros H. unfold tsum. apply sumf_ext. intros; apply H. Qed.
+
+Lemma tsum_ext2 g h a b : gfree g -> gfree h ->
+  (forall j, g j (slot_at a j) = h j (slot_at b j)) -> tsum g a = tsum h b.
+Proof.
+  intros Hg Hh H.
+  set (N := max (length (tab a)) (length (tab b))).
+  rewrite (tsum_bound g a N), (tsum_bound h b N) by (auto; unfold N; lia).
+  apply sumf_ext. intros; apply H.
+Qed.
+
+Lemma tsum_change2 g h a b i0 : gfree g -> gfree h ->
+  (forall j, j <> i0 -> g j (slot_at a j) = h j (slot_at b j)) ->
+  tsum g a + h i0 (slot_at b i0) = tsum h b + g i0 (slot_at a i0).
+Proof.
+  intros Hg Hh H.
+  set (N := S (max i0 (max (length (tab a)) (length (tab b))))).
+  rewrite (tsum_bound g a N), (tsum_bound h b N) by (auto; unfold N; lia).
+  apply (sumf_change (fun i => g i (slot_at a i)) (fun i => h i (slot_at b i)) N i0); [unfold N; lia|].
+  intros i _ Hne. apply H. exact Hne.
+Qed.
+
+(* ============================================================================================ the invariant *)
+Definition fslot (f : frame) : nat := match f with FEnter i => i | FLoop i _ => i end.
+
+(* how many entries of links[] the activation standing in slot i has already handed to recursive calls *)
+Fixpoint prog (stk : list frame) (i : nat) : nat :=
+  match stk with
+  | [] => 0
+  | FLoop j k :: r => if Nat.eqb j i then k else prog r i
+  | FEnter _ :: r => prog r i
+  end.
+
+(* references to x from the not yet consumed link entries of slot i *)
+Definition gl (stk : list frame) (x : nat) (i : nat) (s : slot) : nat :=
+  if Nat.eqb (in_use s) 0 then 0 else cnt x (skipn (prog stk i) (links s)).
+(* descriptors of file n held by slot i *)
+Definition gn (n : nat) (i : nat) (s : slot) : nat :=
+  if Nat.eqb (in_use s) 0 then 0
+  else match fname s with Some m => if Nat.eqb m n then 1 else 0 | None => 0 end.
+
+Lemma gl_free stk x : gfree (gl stk x). Proof. intros i. reflexivity. Qed.
+Lemma gn_free n : gfree (gn n). Proof. intros i. reflexivity. Qed.
+#[global] Hint Resolve gl_free gn_free : core.
+
+(* references to slot x: U = references held outside the ADF layer (cgio handles, the caller of a close in progress),
+   the activations on the stack (each is dropping one reference to its slot), and the link entries of files in use *)
+Definition refs (a : adf) (U : list nat) (stk : list frame) (x : nat) : nat :=
+  cnt x U + cnt x (map fslot stk) + tsum (gl stk x) a.
+
+Record Inv (w : world) (a : adf) (U : list nat) (stk : list frame) : Prop := mkInv {
+  inv_R : forall x, in_use (slot_at a x) = refs a U stk x;
+  inv_W : forall i, in_use (slot_at a i) = 0 -> slot_at a i = free_slot;
+  inv_D : forall i, in_use (slot_at a i) <> 0 ->
+                    fd_open (slot_at a i) = true /\ exists n, fname (slot_at a i) = Some n;
+  inv_L : forall n, cnt n (ledger a) = tsum (gn n) a;
+  inv_F : forall i k, In (FLoop i k) stk -> in_use (slot_at a i) = 1;
+  inv_N : forall i j ni nj, in_use (slot_at a i) <> 0 -> In j (links (slot_at a i)) ->
+            fname (slot_at a i) = Some ni -> fname (slot_at a j) = Some nj -> has_link w ni nj = true
+}.
+
+Lemma Inv_same w a b U stk :
+  (forall i, slot_at a i = slot_at b i) -> ledger a = ledger b -> Inv w a U stk -> Inv w b U stk.
+Proof.
+  intros Hs Hl [R W D L F N]. constructor.
+  - intros x. rewrite <- Hs, R. unfold refs. f_equal. apply tsum_ext2; auto. intros j. rewrite Hs. reflexivity.
+  - intros i. rewrite <- Hs. apply W.
+  - intros i. rewrite <- Hs. apply D.
+  - intros n. rewrite <- Hl, L. apply tsum_ext2; auto. intros j. rewrite Hs. reflexivity.
+  - intros i k H. rewrite <- Hs. eapply F; eauto.
+  - intros i j ni nj. rewrite <- !Hs. apply N.
+Qed.
+
+Lemma forallb_idle_all a :
+  forallb (fun s => Nat.eqb (in_use s) 0) (tab a) = true -> forall i, in_use (slot_at a i) = 0.
+Proof.
+  intros H i. destruct (Nat.lt_ge_cases i (length (tab a))) as [Hi|Hi].
+  - rewrite forallb_forall in H. apply Nat.eqb_eq. apply H. unfold slot_at. apply nth_In. exact Hi.
+  - rewrite slot_at_out by lia. reflexivity.
+Qed.
+
+Lemma free_if_idle_slots a : (forall i, in_use (slot_at a i) = 0 -> slot_at a i = free_slot) ->
+  forall i, slot_at a i = slot_at (free_if_idle a) i.
+Proof.
+  intros W i. unfold free_if_idle. destruct (forallb _ _) eqn:E; [|reflexivity].
+  rewrite (W i) by (apply forallb_idle_all; exact E).
+  unfold slot_at. simpl. destruct i; reflexivity.
+Qed.
+
+Lemma free_if_idle_ledger a : ledger (free_if_idle a) = ledger a.
+Proof. unfold free_if_idle. destruct (forallb _ _); reflexivity. Qed.
+
+Lemma Inv_free_if_idle w a U stk : Inv w a U stk -> Inv w (free_if_idle a) U stk.
+Proof.
+  intros H. apply (Inv_same w a); auto.
+  - apply free_if_idle_slots. apply (inv_W _ _ _ _ H).
+  - symmetry. apply free_if_idle_ledger.
+Qed.
+
+Lemma in_use_lt a i : in_use (slot_at a i) <> 0 -> i < length (tab a).
+Proof.
+  intros H. destruct (Nat.lt_ge_cases i (length (tab a))); auto.
+  rewrite slot_at_out in H by lia. simpl in H. congruence.
+Qed.
+
+Lemma slot_set_slot_eq a i s : i < length (tab a) -> slot_at (set_slot a i s) i = s.
+Proof. intros H. unfold set_slot. apply slot_at_upd_eq. exact H. Qed.
+Lemma slot_set_slot_neq a i j s : i <> j -> slot_at (set_slot a i s) j = slot_at a j.
+Proof. intros H. unfold set_slot. rewrite slot_at_upd_neq by auto. destruct a; reflexivity. Qed.
+
+Lemma prog_in stk i : prog stk i <> 0 -> In (FLoop i (prog stk i)) stk.
+Proof.
+  induction stk as [|f r IH]; simpl; [congruence|]. destruct f as [j|j k].
+  - intros H. right. auto.
+  - destruct (Nat.eqb_spec j i); [subst; intros _; left; reflexivity|]. intros H. right. auto.
+Qed.
+
+Lemma in_fslot_cnt f stk : In f stk -> 1 <= cnt (fslot f) (map fslot stk).
+Proof.
+  induction stk as [|g r IH]; simpl; [tauto|]. intros [->|H].
+  - rewrite Nat.eqb_refl. lia.
+  - specialize (IH H). lia.
+Qed.
+
+(* ============================================================================================ machine steps (FixA) *)
+Section Machine.
+Variable w : world.
+Variable U : list nat.
+
+Lemma enter_in_use a i rest : Inv w a U (FEnter i :: rest) -> in_use (slot_at a i) <> 0.
+Proof.
+  intros H. rewrite (inv_R _ _ _ _ H). unfold refs. simpl. rewrite Nat.eqb_refl. lia.
+Qed.
+
+Lemma loop_unique a i k rest : Inv w a U (FLoop i k :: rest) -> forall k', ~ In (FLoop i k') rest.
+Proof.
+  intros H k' Hin.
+  assert (E : in_use (slot_at a i) = 1) by (eapply (inv_F _ _ _ _ H); left; reflexivity).
+  rewrite (inv_R _ _ _ _ H) in E. unfold refs in E. simpl in E. rewrite Nat.eqb_refl in E.
+  pose proof (in_fslot_cnt _ _ Hin) as P. simpl in P. lia.
+Qed.
+
+Lemma step_dec a i rest : Inv w a U (FEnter i :: rest) -> 2 <= in_use (slot_at a i) ->
+  Inv w (set_in_use a i (in_use (slot_at a i) - 1)) U rest.
+Proof.
+  intros H Hge. pose proof (in_use_lt a i ltac:(lia)) as Hlt.
+  set (s := slot_at a i) in *. set (a1 := set_in_use a i (in_use s - 1)).
+  assert (E1 : slot_at a1 i = mkslot (in_use s - 1) (fd_open s) (fname s) (links s)).
+  { unfold a1, set_in_use. apply slot_set_slot_eq. exact Hlt. }
+  assert (E2 : forall j, j <> i -> slot_at a1 j = slot_at a j).
+  { intros j Hj. unfold a1, set_in_use. apply slot_set_slot_neq. auto. }
+  assert (Hnl : forall i0 k, In (FLoop i0 k) rest -> i0 <> i).
+  { intros i0 k Hin ->. pose proof (inv_F _ _ _ _ H i k (or_intror Hin)). fold s in H0. lia. }
+  destruct H as [R W D L F N]. constructor.
+  - intros x. unfold refs.
+    assert (T : tsum (gl rest x) a1 = tsum (gl (FEnter i :: rest) x) a).
+    { apply tsum_ext2; auto. intros j. destruct (Nat.eq_dec j i) as [->|Hj].
+      - rewrite E1. fold s. unfold gl. simpl. destruct (Nat.eqb_spec (in_use s - 1) 0); [lia|].
+        destruct (Nat.eqb_spec (in_use s) 0); [lia|]. reflexivity.
+      - rewrite E2 by auto. reflexivity. }
+    rewrite T. specialize (R x). unfold refs in R. simpl in R.
+    destruct (Nat.eq_dec x i) as [->|Hx].
+    + rewrite E1. simpl. fold s in R. rewrite Nat.eqb_refl in R. lia.
+    + rewrite E2 by auto. rewrite R. destruct (Nat.eqb_spec i x); [congruence|]. lia.
+  - intros j Hj. destruct (Nat.eq_dec j i) as [->|Hne]; [rewrite E1 in Hj; simpl in Hj; lia|].
+    rewrite E2 in * by auto. auto.
+  - intros j Hj. destruct (Nat.eq_dec j i) as [->|Hne].
+    + rewrite E1. simpl. apply (D i). fold s. lia.
+    + rewrite E2 in * by auto. auto.
+  - intros n. change (ledger a1) with (ledger a). rewrite L. symmetry. apply tsum_ext2; auto.
+    intros j. destruct (Nat.eq_dec j i) as [->|Hj]; [|rewrite E2 by auto; reflexivity].
+    rewrite E1. fold s. unfold gn. simpl. destruct (Nat.eqb_spec (in_use s - 1) 0); [lia|].
+    destruct (Nat.eqb_spec (in_use s) 0); [lia|]. reflexivity.
+  - intros i0 k Hin. rewrite E2 by (eapply Hnl; eauto). eapply F. right. exact Hin.
+  - intros i0 j ni nj. destruct (Nat.eq_dec i0 i) as [->|Hi0].
+    + rewrite E1. simpl. intros _ Hin Hni Hnj. apply (N i j ni nj); fold s; auto; try lia.
+      destruct (Nat.eq_dec j i) as [->|Hj]; [rewrite E1 in Hnj; exact Hnj | rewrite E2 in Hnj by auto; exact Hnj].
+    + rewrite (E2 i0) by auto. intros A B C Dn. apply (N i0 j ni nj); auto.
+      destruct (Nat.eq_dec j i) as [->|Hj]; [rewrite E1 in Dn; exact Dn | rewrite E2 in Dn by auto; exact Dn].
+Qed.
+
+Lemma step_enter_loop a i rest : Inv w a U (FEnter i :: rest) -> in_use (slot_at a i) = 1 ->
+  Inv w a U (FLoop i 0 :: rest).
+Proof.
+  intros H E.
+  assert (P0 : prog rest i = 0).
+  { destruct (Nat.eq_dec (prog rest i) 0) as [|Hne]; auto. exfalso.
+    pose proof (prog_in _ _ Hne) as Hin. pose proof (in_fslot_cnt _ _ Hin) as P. simpl in P.
+    rewrite (inv_R _ _ _ _ H) in E. unfold refs in E. simpl in E. rewrite Nat.eqb_refl in E. lia. }
+  destruct H as [R W D L F N]. constructor; auto.
+  - intros x. rewrite R. unfold refs. simpl. f_equal. apply tsum_ext. intros j. unfold gl. simpl.
+    destruct (Nat.eqb_spec i j); [subst; rewrite P0|]; reflexivity.
+  - intros i0 k [Heq|Hin]; [inversion Heq; subst; exact E|]. eapply F. right. exact Hin.
+Qed.
+
+Lemma step_push a i k rest : Inv w a U (FLoop i k :: rest) -> k < length (links (slot_at a i)) ->
+  Inv w a U (FEnter (nth k (links (slot_at a i)) 0) :: FLoop i (S k) :: rest).
+Proof.
+  intros H Hk.
+  assert (E : in_use (slot_at a i) = 1) by (eapply (inv_F _ _ _ _ H); left; reflexivity).
+  set (l := nth k (links (slot_at a i)) 0).
+  destruct H as [R W D L F N]. constructor; auto.
+  - intros x. rewrite R. unfold refs. simpl.
+    pose proof (tsum_change2 (gl (FLoop i k :: rest) x) (gl (FEnter l :: FLoop i (S k) :: rest) x) a a i
+                  (gl_free _ _) (gl_free _ _)) as T.
+    assert (G1 : gl (FLoop i k :: rest) x i (slot_at a i) = cnt x (skipn k (links (slot_at a i)))).
+    { unfold gl. simpl. rewrite Nat.eqb_refl, E. reflexivity. }
+    assert (G2 : gl (FEnter l :: FLoop i (S k) :: rest) x i (slot_at a i) = cnt x (skipn (S k) (links (slot_at a i)))).
+    { unfold gl. simpl. rewrite Nat.eqb_refl, E. reflexivity. }
+    rewrite G1, G2 in T.
+    specialize (T ltac:(intros j Hj; unfold gl; simpl; destruct (Nat.eqb_spec i j); [congruence|]; reflexivity)).
+    rewrite (skipn_nth_cons _ k Hk) in T. fold l in T. simpl in T. lia.
+  - intros i0 k0 [Heq|[Heq|Hin]]; [discriminate| inversion Heq; subst; exact E |]. eapply F. right. exact Hin.
+Qed.
+
+Lemma slot_really_close_eq a i : i < length (tab a) -> slot_at (really_close a i) i = free_slot.
+Proof. intros H. unfold really_close. apply slot_at_upd_eq. exact H. Qed.
+Lemma slot_really_close_neq a i j : i <> j -> slot_at (really_close a i) j = slot_at a j.
+Proof. intros H. unfold really_close. rewrite slot_at_upd_neq by auto. destruct a; reflexivity. Qed.
+
+Lemma step_finish a i k rest : Inv w a U (FLoop i k :: rest) -> length (links (slot_at a i)) <= k ->
+  Inv w (really_close a i) U rest /\ fd_open (slot_at a i) = true.
+Proof.
+  intros H Hk.
+  assert (E : in_use (slot_at a i) = 1) by (eapply (inv_F _ _ _ _ H); left; reflexivity).
+  pose proof (in_use_lt a i ltac:(lia)) as Hlt.
+  pose proof (loop_unique _ _ _ _ H) as Huniq.
+  set (a1 := really_close a i).
+  pose proof (slot_really_close_eq a i Hlt) as E1. fold a1 in E1.
+  assert (E2 : forall j, j <> i -> slot_at a1 j = slot_at a j).
+  { intros j Hj. apply slot_really_close_neq. auto. }
+  destruct H as [R W D L F N].
+  destruct (D i ltac:(lia)) as (Dfd & n & Dn).
+  split; [|exact Dfd]. constructor.
+  - intros x. unfold refs.
+    assert (T : tsum (gl rest x) a1 = tsum (gl (FLoop i k :: rest) x) a).
+    { apply tsum_ext2; auto. intros j. destruct (Nat.eq_dec j i) as [->|Hj].
+      - rewrite E1. unfold gl. simpl. rewrite Nat.eqb_refl, E. simpl. rewrite skipn_all2 by lia. reflexivity.
+      - rewrite E2 by auto. unfold gl. simpl. destruct (Nat.eqb_spec i j); [congruence|]. reflexivity. }
+    rewrite T. specialize (R x). unfold refs in R. simpl in R.
+    destruct (Nat.eq_dec x i) as [->|Hx].
+    + rewrite E1. simpl. rewrite Nat.eqb_refl in R. lia.
+    + rewrite E2 by auto. rewrite R. destruct (Nat.eqb_spec i x); [congruence|]. lia.
+  - intros j Hj. destruct (Nat.eq_dec j i) as [->|Hne]; [exact E1|]. rewrite E2 in * by auto. auto.
+  - intros j Hj. destruct (Nat.eq_dec j i) as [->|Hne]; [rewrite E1 in Hj; simpl in Hj; congruence|].
+    rewrite E2 in * by auto. auto.
+  - intros m.
+    assert (Hled : ledger a1 = rem1 n (ledger a)).
+    { unfold a1, really_close. simpl. rewrite Dfd, Dn. reflexivity. }
+    rewrite Hled.
+    pose proof (tsum_change2 (gn m) (gn m) a1 a i (gn_free _) (gn_free _)) as T.
+    specialize (T ltac:(intros j Hj; rewrite E2 by auto; reflexivity)).
+    assert (G1 : gn m i (slot_at a i) = if Nat.eqb n m then 1 else 0).
+    { unfold gn. rewrite E, Dn. reflexivity. }
+    assert (G2 : gn m i (slot_at a1 i) = 0) by (rewrite E1; reflexivity).
+    rewrite G1, G2 in T. pose proof (L m) as Lm. pose proof (L n) as Ln.
+    destruct (Nat.eq_dec m n) as [->|Hm].
+    + rewrite cnt_rem1_same. rewrite Nat.eqb_refl in T. lia.
+    + rewrite cnt_rem1_other by auto. destruct (Nat.eqb_spec n m); [congruence|]. lia.
+  - intros i0 k0 Hin. assert (i0 <> i) by (intros ->; eapply Huniq; eauto).
+    rewrite E2 by auto. eapply F. right. exact Hin.
+  - intros i0 j ni nj. destruct (Nat.eq_dec i0 i) as [->|Hi0]; [rewrite E1; simpl; congruence|].
+    rewrite (E2 i0) by auto. intros A B C Dj.
+    destruct (Nat.eq_dec j i) as [->|Hj]; [rewrite E1 in Dj; simpl in Dj; discriminate|].
+    rewrite E2 in Dj by auto. eapply N; eauto.
+Qed.
+
+(* one step of the machine from a state satisfying the invariant *)
+Lemma cm_step_inv a stk e m' :
+  Inv w a U stk -> cm_step FixA (mkcm a stk e) = inl m' ->
+  Inv w (cm_a m') U (cm_stk m') /\ (e = 0 -> cm_err m' = 0).
+Proof.
+  intros H St. unfold cm_step in St. simpl in St. destruct stk as [|[i|i k] rest]; [discriminate| |].
+  - pose proof (enter_in_use _ _ _ H) as Hu. pose proof (in_use_lt _ _ Hu) as Hlt.
+    destruct (Nat.leb_spec (length (tab a)) i); [lia|]. simpl in St.
+    destruct (Nat.eqb_spec (in_use (slot_at a i)) 0); [congruence|].
+    destruct (Nat.eqb_spec (in_use (slot_at a i)) 1) as [E1|E1]; inversion St; subst; simpl.
+    + split; auto. apply step_enter_loop; auto.
+    + split; auto. apply Inv_free_if_idle. apply step_dec; auto. lia.
+  - assert (E : in_use (slot_at a i) = 1) by (eapply (inv_F _ _ _ _ H); left; reflexivity).
+    destruct (Nat.ltb_spec k (length (links (slot_at a i)))).
+    + inversion St; subst; simpl. split; auto. apply step_push; auto.
+    + rewrite E in St. simpl in St. destruct (step_finish _ _ _ _ H ltac:(lia)) as [Hi Hfd].
+      inversion St; subst; simpl. rewrite Hfd. split; auto. apply Inv_free_if_idle. exact Hi.
+Qed.
+
+Lemma cm_run_inv fuel : forall a stk a' e',
+  Inv w a U stk -> loopN (cm_step FixA) fuel (mkcm a stk 0) = inr (a', e') -> e' = 0 /\ Inv w a' U [].
+Proof.
+  induction fuel as [|fuel IH]; intros a stk a' e' H Run; [discriminate|].
+  simpl in Run. destruct (cm_step FixA (mkcm a stk 0)) as [m'|r] eqn:St.
+  - destruct (cm_step_inv _ _ _ _ H St) as [Hi He]. destruct m' as [a1 stk1 e1]. simpl in *.
+    rewrite (He eq_refl) in Run. eapply IH; eauto.
+  - inversion Run; subst. unfold cm_step in St. simpl in St. destruct stk as [|[i|i k] rest].
+    + inversion St; subst. auto.
+    + destruct (_ || _); [discriminate|]. destruct (Nat.eqb _ 1); discriminate.
+    + destruct (_ <? _); [discriminate|]. destruct (Nat.eqb _ 0); [discriminate|]. destruct (Nat.eqb _ 0); discriminate.
+Qed.
+
+(* ADFI_close_file drops exactly the caller's reference and reports NO_ERROR *)
+Lemma close_machine_ok fuel a i a' e :
+  Inv w a (i :: U) [] -> adfi_close_file FixA fuel a i = Some (a', e) -> e = 0 /\ Inv w a' U [].
+Proof.
+  intros H Cl. unfold adfi_close_file in Cl.
+  destruct (loopN _ _ _) as [|[a1 e1]] eqn:Run; [discriminate|]. inversion Cl; subst.
+  eapply cm_run_inv; [|exact Run].
+  destruct H as [R W D L F N]. constructor; auto.
+  - intros x. rewrite R. unfold refs. simpl.
+    assert (T : tsum (gl [FEnter i] x) a = tsum (gl [] x) a) by (apply tsum_ext; intros j; reflexivity).
+    rewrite T. lia.
+  - intros i0 k [Heq|[]]. discriminate.
+Qed.
+End Machine.
+
+(* ============================================================================================ top-level ADF operations *)
+Lemma Inv_U w a U U' stk : (forall x, cnt x U = cnt x U') -> Inv w a U stk -> Inv w a U' stk.
+Proof.
+  intros HU [R W D L F N]. constructor; auto. intros x. rewrite R. unfold refs. rewrite HU. reflexivity.
+Qed.
+
+Lemma targets_in_use w a U i j : Inv w a U [] -> in_use (slot_at a i) <> 0 -> In j (links (slot_at a i)) ->
+  in_use (slot_at a j) <> 0.
+Proof.
+  intros H Hi Hin. rewrite (inv_R _ _ _ _ H). unfold refs.
+  pose proof (tsum_ge (gl [] j) a i (gl_free _ _)) as G.
+  assert (1 <= gl [] j i (slot_at a i)).
+  { unfold gl. destruct (Nat.eqb_spec (in_use (slot_at a i)) 0); [congruence|]. simpl. apply cnt_pos_in. exact Hin. }
+  lia.
+Qed.
+
+Lemma find_free_spec t : find_free t <= length t /\
+  (find_free t < length t -> in_use (nth (find_free t) t free_slot) = 0).
+Proof.
+  induction t as [|s r [IH1 IH2]]; simpl; [split; [lia|intros; lia]|].
+  destruct (Nat.eqb_spec (in_use s) 0); simpl.
+  - split; [lia|auto].
+  - split; [lia|]. intros H. apply IH2. lia.
+Qed.
+
+Lemma slot_at_app_free t led k i : slot_at (mkadf (t ++ repeat free_slot k) led) i = slot_at (mkadf t led) i.
+Proof.
+  unfold slot_at. simpl. destruct (Nat.lt_ge_cases i (length t)) as [H|H].
+  - apply app_nth1. exact H.
+  - rewrite app_nth2 by lia. rewrite (nth_overflow t) by lia.
+    destruct (Nat.lt_ge_cases (i - length t) k) as [H2|H2].
+    + apply nth_repeat.
+    + apply nth_overflow. rewrite repeat_length. lia.
+Qed.
+
+(* what ADFI_open_file does to the table *)
+Lemma adfi_open_file_spec a n os_ok a1 r : adfi_open_file a n os_ok = (a1, r) ->
+  match r with
+  | Some i => in_use (slot_at a i) = 0 /\ i < length (tab a1) /\ slot_at a1 i = mkslot 1 true (Some n) [] /\
+              (forall j, j <> i -> slot_at a1 j = slot_at a j) /\ ledger a1 = n :: ledger a
+  | None => ledger a1 = ledger a /\
+            ((forall j, in_use (slot_at a j) = 0 -> slot_at a j = free_slot) -> forall j, slot_at a1 j = slot_at a j)
+  end.
+Proof.
+  unfold adfi_open_file. destruct (find_free_spec (tab a)) as [F1 F2].
+  set (i := find_free (tab a)) in *.
+  set (t1 := if i <? length (tab a) then tab a else tab a ++ repeat free_slot ADF_FILE_INC).
+  assert (S1 : forall j led, slot_at (mkadf t1 led) j = slot_at a j).
+  { intros j led. unfold t1. destruct (i <? length (tab a)); [reflexivity|]. rewrite slot_at_app_free. reflexivity. }
+  assert (Li : i < length t1).
+  { unfold t1. destruct (Nat.ltb_spec i (length (tab a))); [lia|]. rewrite app_length, repeat_length. unfold ADF_FILE_INC. lia. }
+  assert (Z : in_use (slot_at a i) = 0).
+  { destruct (Nat.lt_ge_cases i (length (tab a))) as [H|H]; [apply F2; exact H|]. rewrite slot_at_out by lia. reflexivity. }
+  destruct (MAXIMUM_FILES <? i).
+  - intros E. inversion E; subst. split; [reflexivity|intros _ j; apply S1].
+  - destruct os_ok; intros E; inversion E; subst.
+    + split; [exact Z|]. split; [simpl; rewrite upd_length; exact Li|]. split; [apply slot_at_upd_eq; exact Li|].
+      split; [|reflexivity]. intros j Hj. rewrite slot_at_upd_neq by auto. apply S1.
+    + split; [reflexivity|]. intros W j. destruct (Nat.eq_dec j i) as [->|Hj].
+      * rewrite slot_at_upd_eq by exact Li. symmetry. apply W. exact Z.
+      * rewrite slot_at_upd_neq by auto. apply S1.
+Qed.
+
+Lemma open_inv w a U a1 i n :
+  Inv w a U [] -> in_use (slot_at a i) = 0 -> slot_at a1 i = mkslot 1 true (Some n) [] ->
+  (forall j, j <> i -> slot_at a1 j = slot_at a j) -> ledger a1 = n :: ledger a ->
+  Inv w a1 (i :: U) [].
+Proof.
+  intros H Z E1 E2 El. pose proof (inv_W _ _ _ _ H i Z) as Zf.
+  pose proof H as [R W D L F N]. constructor.
+  - intros x. unfold refs.
+    assert (T : tsum (gl [] x) a1 = tsum (gl [] x) a).
+    { apply tsum_ext2; auto. intros j. destruct (Nat.eq_dec j i) as [->|Hj]; [rewrite E1, Zf; reflexivity|].
+      rewrite E2 by auto. reflexivity. }
+    rewrite T. specialize (R x). unfold refs in R. simpl in *.
+    destruct (Nat.eq_dec x i) as [->|Hx].
+    + rewrite E1, Nat.eqb_refl. simpl. rewrite Z in R. lia.
+    + rewrite E2 by auto. destruct (Nat.eqb_spec i x); [congruence|]. lia.
+  - intros j Hj. destruct (Nat.eq_dec j i) as [->|Hne]; [rewrite E1 in Hj; simpl in Hj; lia|].
+    rewrite E2 in * by auto. auto.
+  - intros j Hj. destruct (Nat.eq_dec j i) as [->|Hne]; [rewrite E1; simpl; eauto|]. rewrite E2 in * by auto. auto.
+  - intros m. rewrite El. simpl. rewrite L.
+    pose proof (tsum_change2 (gn m) (gn m) a1 a i (gn_free _) (gn_free _)) as T.
+    specialize (T ltac:(intros j Hj; rewrite E2 by auto; reflexivity)).
+    rewrite E1, Zf in T.
+    change (gn m i (mkslot 1 true (Some n) [])) with (if Nat.eqb n m then 1 else 0) in T.
+    change (gn m i free_slot) with 0 in T. lia.
+  - intros ? ? [].
+  - intros i0 j ni nj. destruct (Nat.eq_dec i0 i) as [->|Hi0]; [rewrite E1; simpl; tauto|].
+    rewrite (E2 i0) by auto. intros A B C Dj.
+    destruct (Nat.eq_dec j i) as [->|Hj].
+    + exfalso. apply (targets_in_use _ _ _ _ _ H A B). exact Z.
+    + rewrite E2 in Dj by auto. eapply N; eauto.
+Qed.
+
+(* closing a slot that was opened a moment ago (Open_Error): both variants, no hypothesis on the rest of the table *)
+Lemma close_fresh v fuel a1 i n a2 e :
+  i < length (tab a1) -> slot_at a1 i = mkslot 1 true (Some n) [] ->
+  adfi_close_file v fuel a1 i = Some (a2, e) -> a2 = free_if_idle (really_close a1 i) /\ e = 0.
+Proof.
+  intros Hlt E Cl. unfold adfi_close_file in Cl.
+  destruct fuel as [|[|[|[|fuel]]]]; simpl in Cl; unfold cm_step in Cl; simpl in Cl;
+    destruct (Nat.leb_spec (length (tab a1)) i); try lia; simpl in Cl; rewrite ?E in Cl; simpl in Cl;
+    destruct v; simpl in Cl; try discriminate; rewrite ?E in Cl; simpl in Cl; try discriminate;
+    inversion Cl; auto.
+Qed.
+
+Lemma adf_open_fail_ledger v fuel w a n rw a' :
+  adf_database_open v fuel w a n rw = Some (a', None) -> ledger a' = ledger a.
+Proof.
+  unfold adf_database_open. intros H.
+  assert (G : forall k, k = kind_of w n -> k <> KMissing ->
+     (let '(a1, oi) := adfi_open_file a n (os_open_ok k rw) in
+         match oi with
+         | None => Some (a1, None)
+         | Some i => if header_ok k then Some (a1, Some i)
+                     else match adfi_close_file v fuel a1 i with
+                          | None => None
+                          | Some (a2, _) => Some (a2, None)
+                          end
+         end) = Some (a', None) -> ledger a' = ledger a).
+  { intros k _ _. destruct (adfi_open_file a n (os_open_ok k rw)) as [a1 [i|]] eqn:Op;
+      pose proof (adfi_open_file_spec _ _ _ _ _ Op) as Sp; simpl in Sp.
+    - destruct (header_ok k); [discriminate|]. destruct Sp as (Z & Li & E1 & E2 & El).
+      destruct (adfi_close_file v fuel a1 i) as [[a2 e]|] eqn:Cl; [|discriminate].
+      intros Q. inversion Q; subst. destruct (close_fresh _ _ _ _ _ _ _ Li E1 Cl) as [-> _].
+      rewrite free_if_idle_ledger. unfold really_close. simpl. rewrite E1. simpl. rewrite El. simpl.
+      rewrite Nat.eqb_refl. reflexivity.
+    - intros Q. inversion Q; subst. apply Sp. }
+  destruct (kind_of w n) eqn:K; try (apply (G _ eq_refl); [discriminate|exact H]).
+  inversion H; subst. reflexivity.
+Qed.
+
+Lemma existsb_eqb_in x l : existsb (Nat.eqb x) l = true <-> In x l.
+Proof.
+  rewrite existsb_exists. split.
+  - intros (y & Hy & E). apply Nat.eqb_eq in E. subst. exact Hy.
+  - intros H. exists x. split; auto. apply Nat.eqb_refl.
+Qed.
+
+(* ADFI_link_add(cur, li, found = 1): the link file was already open *)
+Lemma link_add_found_inv w a U cur li nm n :
+  Inv w a U [] -> in_use (slot_at a cur) <> 0 -> in_use (slot_at a li) <> 0 ->
+  fname (slot_at a cur) = Some nm -> fname (slot_at a li) = Some n -> has_link w nm n = true ->
+  Inv w (link_add a cur li true) U [].
+Proof.
+  intros H Hc Hl Nc Nl Hw. unfold link_add.
+  destruct (Nat.eqb_spec cur li) as [|Hne]; [exact H|].
+  destruct (existsb (Nat.eqb li) (links (slot_at a cur))) eqn:Ex; [exact H|].
+  assert (Hnin : ~ In li (links (slot_at a cur))).
+  { intros Hin. apply existsb_eqb_in in Hin. congruence. }
+  pose proof (in_use_lt _ _ Hc) as Lc. pose proof (in_use_lt _ _ Hl) as Ll.
+  set (s := slot_at a cur) in *.
+  set (a1 := set_slot a cur (mkslot (in_use s) (fd_open s) (fname s) (links s ++ [li]))).
+  assert (A1l : slot_at a1 li = slot_at a li) by (apply slot_set_slot_neq; auto).
+  assert (Ll1 : li < length (tab a1)) by (unfold a1, set_slot; simpl; rewrite upd_length; exact Ll).
+  set (a2 := set_in_use a1 li (in_use (slot_at a1 li) + 1)).
+  assert (E_li : slot_at a2 li = mkslot (in_use (slot_at a li) + 1) (fd_open (slot_at a li)) (fname (slot_at a li)) (links (slot_at a li))).
+  { unfold a2, set_in_use. rewrite slot_set_slot_eq by exact Ll1. rewrite A1l. reflexivity. }
+  assert (E_cur : slot_at a2 cur = mkslot (in_use s) (fd_open s) (fname s) (links s ++ [li])).
+  { unfold a2, set_in_use. rewrite slot_set_slot_neq by auto. unfold a1. apply slot_set_slot_eq. exact Lc. }
+  assert (E_oth : forall j, j <> cur -> j <> li -> slot_at a2 j = slot_at a j).
+  { intros j H1 H2. unfold a2, set_in_use. rewrite slot_set_slot_neq by auto. unfold a1. apply slot_set_slot_neq. auto. }
+  assert (Led : ledger a2 = ledger a) by reflexivity.
+  pose proof H as [R W D L F N]. constructor.
+  - intros x. unfold refs.
+    pose proof (tsum_change2 (gl [] x) (gl [] x) a a2 cur (gl_free _ _) (gl_free _ _)) as T.
+    assert (G1 : gl [] x cur (slot_at a2 cur) = cnt x (links s) + (if Nat.eqb li x then 1 else 0)).
+    { rewrite E_cur. unfold gl. simpl. destruct (Nat.eqb_spec (in_use s) 0); [congruence|]. rewrite cnt_app. simpl. lia. }
+    assert (G2 : gl [] x cur (slot_at a cur) = cnt x (links s)).
+    { fold s. unfold gl. simpl. destruct (Nat.eqb_spec (in_use s) 0); [congruence|]. reflexivity. }
+    rewrite G1, G2 in T.
+    specialize (T ltac:(intros j Hj; destruct (Nat.eq_dec j li) as [->|Hj2];
+                         [rewrite E_li; unfold gl; simpl;
+                          destruct (Nat.eqb_spec (in_use (slot_at a li)) 0); [congruence|];
+                          destruct (Nat.eqb_spec (in_use (slot_at a li) + 1) 0); [lia|]; reflexivity
+                         | rewrite E_oth by auto; reflexivity])).
+    specialize (R x). unfold refs in R. simpl in *.
+    destruct (Nat.eq_dec x li) as [->|Hx].
+    + rewrite E_li. simpl. rewrite Nat.eqb_refl in T. lia.
+    + destruct (Nat.eqb_spec li x); [congruence|].
+      destruct (Nat.eq_dec x cur) as [->|Hx2]; [rewrite E_cur; simpl; fold s in R; lia|].
+      rewrite E_oth by auto. lia.
+  - intros j Hj. destruct (Nat.eq_dec j li) as [->|H1]; [rewrite E_li in Hj; simpl in Hj; lia|].
+    destruct (Nat.eq_dec j cur) as [->|H2]; [rewrite E_cur in Hj; simpl in Hj; congruence|].
+    rewrite E_oth in * by auto. auto.
+  - intros j Hj. destruct (Nat.eq_dec j li) as [->|H1]; [rewrite E_li; simpl; apply D; exact Hl|].
+    destruct (Nat.eq_dec j cur) as [->|H2]; [rewrite E_cur; simpl; apply (D cur); exact Hc|].
+    rewrite E_oth in * by auto. auto.
+  - intros m. rewrite Led, L. apply tsum_ext2; auto. intros j.
+    destruct (Nat.eq_dec j li) as [->|H1].
+    { rewrite E_li. unfold gn. simpl. destruct (Nat.eqb_spec (in_use (slot_at a li)) 0); [congruence|].
+      destruct (Nat.eqb_spec (in_use (slot_at a li) + 1) 0); [lia|]. reflexivity. }
+    destruct (Nat.eq_dec j cur) as [->|H2]; [rewrite E_cur; reflexivity|].
+    rewrite E_oth by auto. reflexivity.
+  - intros ? ? [].
+  - assert (Nm : forall j, fname (slot_at a2 j) = fname (slot_at a j)).
+    { intros j. destruct (Nat.eq_dec j li) as [->|H1]; [rewrite E_li; reflexivity|].
+      destruct (Nat.eq_dec j cur) as [->|H2]; [rewrite E_cur; reflexivity|]. rewrite E_oth by auto. reflexivity. }
+    intros i0 j ni nj. rewrite !Nm.
+    destruct (Nat.eq_dec i0 cur) as [->|H2].
+    + rewrite E_cur. simpl. intros _ Hin A B. apply in_app_or in Hin. destruct Hin as [Hin|[<-|[]]].
+      * apply (N cur j ni nj); auto.
+      * unfold s in *. rewrite Nc in A. rewrite Nl in B. inversion A; inversion B; subst. exact Hw.
+    + destruct (Nat.eq_dec i0 li) as [->|H1].
+      * rewrite E_li. simpl. intros _ Hin A B. apply (N li j ni nj); auto.
+      * rewrite E_oth by auto. apply N.
+Qed.
+
+(* ADFI_link_add(cur, li, found = 0): the link file has just been opened for this link *)
+Lemma link_add_new_inv w a U cur li nm n :
+  Inv w a (li :: U) [] -> cur <> li -> in_use (slot_at a cur) <> 0 -> in_use (slot_at a li) = 1 ->
+  fname (slot_at a cur) = Some nm -> fname (slot_at a li) = Some n -> has_link w nm n = true ->
+  Inv w (link_add a cur li false) U [].
+Proof.
+  intros H Hne Hc Hl Nc Nl Hw. unfold link_add.
+  destruct (Nat.eqb_spec cur li) as [|_]; [congruence|].
+  pose proof H as [R W D L F N].
+  assert (T0 : tsum (gl [] li) a = 0).
+  { specialize (R li). unfold refs in R. simpl in R. rewrite Nat.eqb_refl in R. lia. }
+  assert (Hnin : ~ In li (links (slot_at a cur))).
+  { intros Hin. pose proof (tsum_ge (gl [] li) a cur (gl_free _ _)) as G.
+    assert (1 <= gl [] li cur (slot_at a cur)).
+    { unfold gl. destruct (Nat.eqb_spec (in_use (slot_at a cur)) 0); [congruence|]. simpl. apply cnt_pos_in. exact Hin. }
+    lia. }
+  destruct (existsb (Nat.eqb li) (links (slot_at a cur))) eqn:Ex; [apply existsb_eqb_in in Ex; tauto|].
+  pose proof (in_use_lt _ _ Hc) as Lc.
+  set (s := slot_at a cur) in *.
+  set (a2 := set_slot a cur (mkslot (in_use s) (fd_open s) (fname s) (links s ++ [li]))).
+  assert (E_cur : slot_at a2 cur = mkslot (in_use s) (fd_open s) (fname s) (links s ++ [li])).
+  { apply slot_set_slot_eq. exact Lc. }
+  assert (E_oth : forall j, j <> cur -> slot_at a2 j = slot_at a j).
+  { intros j H1. apply slot_set_slot_neq. auto. }
+  constructor.
+  - intros x. unfold refs.
+    pose proof (tsum_change2 (gl [] x) (gl [] x) a a2 cur (gl_free _ _) (gl_free _ _)) as T.
+    assert (G1 : gl [] x cur (slot_at a2 cur) = cnt x (links s) + (if Nat.eqb li x then 1 else 0)).
+    { rewrite E_cur. unfold gl. simpl. destruct (Nat.eqb_spec (in_use s) 0); [congruence|]. rewrite cnt_app. simpl. lia. }
+    assert (G2 : gl [] x cur (slot_at a cur) = cnt x (links s)).
+    { fold s. unfold gl. simpl. destruct (Nat.eqb_spec (in_use s) 0); [congruence|]. reflexivity. }
+    rewrite G1, G2 in T.
+    specialize (T ltac:(intros j Hj; rewrite E_oth by auto; reflexivity)).
+    specialize (R x). unfold refs in R. simpl in *.
+    destruct (Nat.eq_dec x cur) as [->|Hx].
+    + rewrite E_cur. simpl. fold s in R. destruct (Nat.eqb_spec li cur); lia.
+    + rewrite E_oth by auto. destruct (Nat.eqb_spec li x); lia.
+  - intros j Hj. destruct (Nat.eq_dec j cur) as [->|H2]; [rewrite E_cur in Hj; simpl in Hj; congruence|].
+    rewrite E_oth in * by auto. auto.
+  - intros j Hj. destruct (Nat.eq_dec j cur) as [->|H2]; [rewrite E_cur; simpl; apply (D cur); exact Hc|].
+    rewrite E_oth in * by auto. auto.
+  - intros m. change (ledger a2) with (ledger a). rewrite L. apply tsum_ext2; auto. intros j.
+    destruct (Nat.eq_dec j cur) as [->|H2]; [rewrite E_cur; reflexivity|]. rewrite E_oth by auto. reflexivity.
+  - intros ? ? [].
+  - assert (Nm : forall j, fname (slot_at a2 j) = fname (slot_at a j)).
+    { intros j. destruct (Nat.eq_dec j cur) as [->|H2]; [rewrite E_cur; reflexivity|]. rewrite E_oth by auto. reflexivity. }
+    intros i0 j ni nj. rewrite !Nm.
+    destruct (Nat.eq_dec i0 cur) as [->|H2].
+    + rewrite E_cur. simpl. intros _ Hin A B. apply in_app_or in Hin. destruct Hin as [Hin|[<-|[]]].
+      * apply (N cur j ni nj); auto.
+      * unfold s in *. rewrite Nc in A. rewrite Nl in B. inversion A; inversion B; subst. exact Hw.
+    + rewrite E_oth by auto. apply N.
+Qed.
+
+Lemma find_name_spec t n li : find_name t n = Some li ->
+  li < length t /\ in_use (nth li t free_slot) <> 0 /\ fname (nth li t free_slot) = Some n.
+Proof.
+  revert li. induction t as [|s r IH]; simpl; intros li H; [discriminate|].
+  destruct (negb (Nat.eqb (in_use s) 0) && _) eqn:C.
+  - inversion H; subst. apply andb_prop in C. destruct C as [C1 C2]. simpl.
+    split; [lia|]. split.
+    + destruct (Nat.eqb_spec (in_use s) 0); [discriminate|auto].
+    + destruct (fname s) as [m|]; [|discriminate]. apply Nat.eqb_eq in C2. subst. reflexivity.
+  - destruct (find_name r n) as [k|] eqn:Fk; [|discriminate]. simpl in H. inversion H; subst.
+    destruct (IH k eq_refl) as (A & B & Cc). simpl. split; [lia|auto].
+Qed.
+
+(* ADF_Database_Open from a state satisfying the invariant *)
+Lemma adf_open_inv w a U fuel n rw a1 r :
+  Inv w a U [] -> adf_database_open FixA fuel w a n rw = Some (a1, r) ->
+  match r with
+  | Some i => Inv w a1 (i :: U) [] /\ in_use (slot_at a i) = 0 /\ slot_at a1 i = mkslot 1 true (Some n) [] /\
+              (forall j, j <> i -> slot_at a1 j = slot_at a j)
+  | None => Inv w a1 U []
+  end.
+Proof.
+  intros H. unfold adf_database_open.
+  assert (G : forall k,
+     (let '(a1', oi) := adfi_open_file a n (os_open_ok k rw) in
+         match oi with
+         | None => Some (a1', None)
+         | Some i => if header_ok k then Some (a1', Some i)
+                     else match adfi_close_file FixA fuel a1' i with
+                          | None => None
+                          | Some (a2, _) => Some (a2, None)
+                          end
+         end) = Some (a1, r) ->
+     match r with
+     | Some i => Inv w a1 (i :: U) [] /\ in_use (slot_at a i) = 0 /\ slot_at a1 i = mkslot 1 true (Some n) [] /\
+                 (forall j, j <> i -> slot_at a1 j = slot_at a j)
+     | None => Inv w a1 U []
+     end).
+  { intros k. destruct (adfi_open_file a n (os_open_ok k rw)) as [a1' [i|]] eqn:Op;
+      pose proof (adfi_open_file_spec _ _ _ _ _ Op) as Sp; simpl in Sp.
+    - destruct Sp as (Z & Li & E1 & E2 & El). pose proof (open_inv _ _ _ _ _ _ H Z E1 E2 El) as Hi.
+      destruct (header_ok k).
+      + intros Q. inversion Q; subst. auto.
+      + destruct (adfi_close_file FixA fuel a1' i) as [[a2 e]|] eqn:Cl; [|discriminate].
+        intros Q. inversion Q; subst. eapply close_machine_ok; eauto.
+    - intros Q. inversion Q; subst. destruct Sp as [S2 S1]. specialize (S1 (inv_W _ _ _ _ H)).
+      apply (Inv_same w a); auto. }
+  destruct (kind_of w n); try apply G. intros Q. inversion Q; subst. exact H.
+Qed.
+
+Lemma chase_inv w a U fuel cur n a' r :
+  Inv w a U [] -> chase FixA fuel w a cur n = Some (a', r) -> Inv w a' U [].
+Proof.
+  intros H. unfold chase.
+  destruct ((length (tab a) <=? cur) || Nat.eqb (in_use (slot_at a cur)) 0) eqn:Bad; [intros Q; inversion Q; subst; exact H|].
+  apply orb_false_elim in Bad. destruct Bad as [_ Bu]. apply Nat.eqb_neq in Bu.
+  destruct (fname (slot_at a cur)) as [nm|] eqn:Nc; [|intros Q; inversion Q; subst; exact H].
+  destruct (has_link w nm n) eqn:Hw; simpl; [|intros Q; inversion Q; subst; exact H].
+  assert (G : match find_name (tab a) n with
+        | Some li => Some (link_add a cur li true, Some li)
+        | None => match adf_database_open FixA fuel w a n true with
+                  | None => None
+                  | Some (a1, None) => Some (a1, None)
+                  | Some (a1, Some li) => Some (link_add a1 cur li false, Some li)
+                  end
+        end = Some (a', r) -> Inv w a' U []).
+  { destruct (find_name (tab a) n) as [li|] eqn:Fn.
+    - intros Q. inversion Q; subst. destruct (find_name_spec _ _ _ Fn) as (A & B & C).
+      eapply link_add_found_inv; eauto.
+    - destruct (adf_database_open FixA fuel w a n true) as [[a1 [li|]]|] eqn:Op; [| |discriminate].
+      + intros Q. inversion Q; subst. destruct (adf_open_inv _ _ _ _ _ _ _ _ H Op) as (Hi & Z & E1 & E2).
+        assert (cur <> li) by (intros ->; congruence).
+        eapply (link_add_new_inv w a1 U cur li nm n); eauto.
+        * rewrite E2 by auto. exact Bu.
+        * rewrite E1. reflexivity.
+        * rewrite E2 by auto. exact Nc.
+        * rewrite E1. reflexivity.
+      + intros Q. inversion Q; subst. exact (adf_open_inv _ _ _ _ _ _ _ _ H Op). }
+  destruct (kind_of w n); try exact G; intros Q; inversion Q; subst; exact H.
+Qed.
+
+Lemma walk_inv w U fuel chain : forall a cur a' ok,
+  Inv w a U [] -> walk FixA fuel w a cur chain = Some (a', ok) -> Inv w a' U [].
+Proof.
+  induction chain as [|n r IH]; intros a cur a' ok H; simpl.
+  - intros Q. inversion Q; subst. exact H.
+  - destruct (chase FixA fuel w a cur n) as [[a1 [li|]]|] eqn:Ch; [| |discriminate].
+    + intros Q. eapply IH; [|exact Q]. eapply chase_inv; eauto.
+    + intros Q. inversion Q; subst. eapply chase_inv; eauto.
+Qed.
+
+(* ============================================================================================ acyclic link graphs *)
+Lemma inlink_source w a U x : Inv w a U [] -> 0 < tsum (gl [] x) a ->
+  exists i, in_use (slot_at a i) <> 0 /\ In x (links (slot_at a i)).
+Proof.
+  intros H P. apply tsum_pos in P. destruct P as (i & _ & Pi). exists i. unfold gl in Pi.
+  destruct (Nat.eqb_spec (in_use (slot_at a i)) 0); [lia|]. split; auto. simpl in Pi. apply cnt_pos_in. exact Pi.
+Qed.
+
+Definition rk (rank : nat -> nat) (a : adf) (i : nat) : nat :=
+  match fname (slot_at a i) with Some n => rank n | None => 0 end.
+
+Lemma acyclic_all_idle w a rank : Inv w a [] [] -> acyclic w rank -> forall i, in_use (slot_at a i) = 0.
+Proof.
+  intros H Hac.
+  set (B := list_max (map (rk rank a) (seq 0 (length (tab a))))).
+  assert (HB : forall i, in_use (slot_at a i) <> 0 -> rk rank a i <= B).
+  { intros i Hi. pose proof (in_use_lt _ _ Hi) as Hlt.
+    pose proof (proj1 (list_max_le (map (rk rank a) (seq 0 (length (tab a)))) B) (Nat.le_refl _)) as Fa.
+    rewrite Forall_forall in Fa. apply Fa. apply in_map. apply in_seq. lia. }
+  assert (Up : forall i, in_use (slot_at a i) <> 0 ->
+                 exists i', in_use (slot_at a i') <> 0 /\ rk rank a i < rk rank a i').
+  { intros i Hi. pose proof (inv_R _ _ _ _ H i) as R. unfold refs in R. simpl in R.
+    destruct (inlink_source _ _ _ i H ltac:(lia)) as (i' & Hi' & Hin). exists i'. split; auto.
+    destruct (inv_D _ _ _ _ H i Hi) as (_ & n & Dn). destruct (inv_D _ _ _ _ H i' Hi') as (_ & n' & Dn').
+    unfold rk. rewrite Dn, Dn'. apply Hac. eapply (inv_N _ _ _ _ H i' i); eauto. }
+  assert (G : forall d i, in_use (slot_at a i) <> 0 -> B - rk rank a i <= d -> False).
+  { induction d as [|d IH]; intros i Hi Hd; destruct (Up i Hi) as (i' & Hi' & Hlt); pose proof (HB i' Hi').
+    - lia.
+    - apply (IH i' Hi'). lia. }
+  intros i. destruct (Nat.eq_dec (in_use (slot_at a i)) 0) as [|Hn]; auto. exfalso. eapply (G B i); eauto. lia.
+Qed.
+
+(* ============================================================================================ the cgio table *)
+Definition handles (l : list (option nat)) : list nat :=
+  flat_map (fun o => match o with Some i => [i] | None => [] end) l.
+
+Lemma handles_upd_some l : forall k i, k < length l -> nth k l None = None ->
+  (forall x, cnt x (handles (upd l k (Some i))) = (if Nat.eqb i x then 1 else 0) + cnt x (handles l)) /\
+  length (handles (upd l k (Some i))) = S (length (handles l)).
+Proof.
+  induction l as [|o r IH]; intros k i Hk Hn; simpl in *; [lia|]. destruct k.
+  - subst o. simpl. split; auto.
+  - destruct (IH k i ltac:(lia) Hn) as [A B]. destruct o as [j|]; simpl.
+    + split; [intros x; rewrite A; lia | rewrite B; reflexivity].
+    + split; auto.
+Qed.
+
+Lemma handles_upd_none l : forall k i, nth k l None = Some i ->
+  (forall x, cnt x (handles l) = (if Nat.eqb i x then 1 else 0) + cnt x (handles (upd l k None))) /\
+  length (handles l) = S (length (handles (upd l k None))).
+Proof.
+  induction l as [|o r IH]; intros k i Hn; simpl in *; [destruct k; discriminate|]. destruct k.
+  - subst o. simpl. split; auto.
+  - destruct (IH k i Hn) as [A B]. destruct o as [j|]; simpl.
+    + split; [intros x; rewrite A; lia | rewrite B; reflexivity].
+    + split; auto.
+Qed.
+
+Lemma first_none_spec l : first_none l <= length l /\ (first_none l < length l -> nth (first_none l) l None = None).
+Proof.
+  induction l as [|o r [A B]]; simpl; [split; [lia|intros; lia]|]. destruct o; simpl.
+  - split; [lia|]. intros H. apply B. lia.
+  - split; [lia|auto].
+Qed.
+
+Lemma handles_app_none l : handles (l ++ [None]) = handles l.
+Proof. unfold handles. rewrite flat_map_app. simpl. apply app_nil_r. Qed.
+
+Lemma handles_repeat_none k : handles (repeat None k) = [].
+Proof. induction k; simpl; auto. Qed.
+
+Lemma nth_repeat_none k c : nth c (repeat (@None nat) k) None = None.
+Proof. revert c. induction k; intros [|c]; simpl; auto. Qed.
+
+Lemma handles_all_none l : (forall c, nth c l None = None) -> handles l = [].
+Proof.
+  induction l as [|o r IH]; intros H; [reflexivity|]. pose proof (H 0) as H0. simpl in H0. subst o. simpl.
+  apply IH. intros c. apply (H (S c)).
+Qed.
+
+Lemma in_remove_all x c l : In x l -> x <> c -> In x (remove_all c l).
+Proof.
+  induction l as [|y r IH]; simpl; [tauto|]. intros [->|H] Hne.
+  - destruct (Nat.eqb_spec x c); [congruence|]. left. reflexivity.
+  - destruct (Nat.eqb_spec y c); [auto|right; auto].
+Qed.
+
+Lemma nth_some_lt {A} (l : list (option A)) c v : nth c l None = Some v -> c < length l.
+Proof.
+  intros H. destruct (Nat.lt_ge_cases c (length l)); auto. rewrite nth_overflow in H by lia. discriminate.
+Qed.
+
+Lemma handle_in_use w a l c idx : Inv w a (handles l) [] -> nth c l None = Some idx -> in_use (slot_at a idx) <> 0.
+Proof.
+  intros H Hn. rewrite (inv_R _ _ _ _ H). unfold refs.
+  destruct (handles_upd_none l c idx Hn) as [A _]. rewrite A, Nat.eqb_refl. lia.
+Qed.
+
+Record IOInv (w : world) (s : io) (pend : list nat) : Prop := mkIOInv {
+  io_inv : Inv w (io_adf s) (handles (iol s)) [];
+  io_cnt : nopen s = length (handles (iol s));
+  io_nil : nopen s = 0 -> iol s = [];
+  io_pend : forall c1 idx, nth c1 (iol s) None = Some idx -> In (S c1) pend
+}.
+
+Lemma step_inv w fuel s pend o s' r :
+  IOInv w s pend -> step FixA fuel w s o = Some (s', r) -> IOInv w s' (track pend o r).
+Proof.
+  intros [I C Z P]. destruct o as [n rw|c ch|c]; simpl.
+  - (* open *)
+    unfold cgio_open_file.
+    assert (G : match adf_database_open FixA fuel w (io_adf s) n rw with
+         | None => None
+         | Some (a1, None) => Some (mkio a1 (iol s) (nopen s), None)
+         | Some (a1, Some idx) =>
+             let l0 := match iol s with [] => repeat None 5 | l => l end in
+             let k := first_none l0 in
+             let l1 := if k <? length l0 then l0 else l0 ++ [None] in
+             Some (mkio a1 (upd l1 k (Some idx)) (S (nopen s)), Some (S k))
+         end = Some (s', match r with ResOpen c => c | _ => None end) -> (exists c, r = ResOpen c) ->
+         IOInv w s' (track pend (OOpen n rw) r)).
+    { destruct (adf_database_open FixA fuel w (io_adf s) n rw) as [[a1 [idx|]]|] eqn:Op; [| |discriminate].
+      - destruct (adf_open_inv _ _ _ _ _ _ _ _ I Op) as (Hi & _).
+        set (l0 := match iol s with [] => repeat None 5 | l => l end).
+        assert (H0 : handles l0 = handles (iol s)).
+        { unfold l0. destruct (iol s); [apply handles_repeat_none|reflexivity]. }
+        assert (P0 : forall c1 idx0, nth c1 l0 None = Some idx0 -> In (S c1) pend).
+        { unfold l0. destruct (iol s); [intros c1 idx0; rewrite nth_repeat_none; discriminate|]. exact P. }
+        set (k := first_none l0). destruct (first_none_spec l0) as [K1 K2]. fold k in K1, K2.
+        set (l1 := if k <? length l0 then l0 else l0 ++ [None]).
+        assert (H1 : handles l1 = handles l0).
+        { unfold l1. destruct (k <? length l0); [reflexivity|apply handles_app_none]. }
+        assert (Kl : k < length l1 /\ nth k l1 None = None).
+        { unfold l1. destruct (Nat.ltb_spec k (length l0)); [auto|].
+          assert (k = length l0) by lia. rewrite app_length. simpl. split; [lia|]. rewrite app_nth2 by lia.
+          replace (k - length l0) with 0 by lia. reflexivity. }
+        assert (P1 : forall c1 idx0, nth c1 l1 None = Some idx0 -> In (S c1) pend).
+        { unfold l1. destruct (Nat.ltb_spec k (length l0)); [exact P0|]. intros c1 idx0 Hn.
+          destruct (Nat.lt_ge_cases c1 (length l0)) as [Hc|Hc]; [rewrite app_nth1 in Hn by lia; eauto|].
+          rewrite app_nth2 in Hn by lia. destruct (c1 - length l0) as [|[|q]]; simpl in Hn; discriminate. }
+        destruct Kl as [Kl1 Kl2]. destruct (handles_upd_some l1 k idx Kl1 Kl2) as [A B].
+        intros Q (c & ->). inversion Q; subst. simpl. constructor; simpl.
+        + fold l0. fold k. fold l1. apply (Inv_U w a1 (idx :: handles (iol s))); auto. intros x. rewrite A, H1, H0. reflexivity.
+        + fold l0. fold k. fold l1. rewrite B, H1, H0, C. reflexivity.
+        + discriminate.
+        + fold l0. fold k. fold l1. intros c1 idx0 Hn. destruct (Nat.eq_dec c1 k) as [->|Hne]; [left; reflexivity|].
+          right. rewrite nth_upd_neq in Hn by auto. eauto.
+      - intros Q (c & ->). inversion Q; subst. simpl. constructor; simpl; auto.
+        exact (adf_open_inv _ _ _ _ _ _ _ _ I Op). }
+    destruct (kind_of w n);
+      try (destruct (adf_database_open FixA fuel w (io_adf s) n rw) as [[a1 [idx|]]|] eqn:Op; [| |discriminate];
+           intros Q; inversion Q; subst; apply G; eauto; rewrite Op; reflexivity);
+      intros Q; inversion Q; subst; simpl; constructor; auto.
+  - (* walk *)
+    unfold cgio_walk. destruct c as [|c1]; [intros Q; inversion Q; subst; simpl; constructor; auto|].
+    destruct (nth c1 (iol s) None) as [idx|]; [|intros Q; inversion Q; subst; simpl; constructor; auto].
+    destruct (walk FixA fuel w (io_adf s) idx ch) as [[a1 ok]|] eqn:Wk; [|discriminate].
+    intros Q. inversion Q; subst. simpl. constructor; simpl; auto. eapply walk_inv; eauto.
+  - (* close *)
+    unfold cgio_close_file.
+    assert (Keep0 : forall c1', (exists v, nth c1' (iol s) None = Some v) -> S c1' <> c -> In (S c1') (remove_all c pend)).
+    { intros c1' (v & Hv) Hne. apply in_remove_all; [eauto|lia]. }
+    destruct c as [|c1]; [intros Q; inversion Q; subst; simpl; constructor; auto; intros c1' idx Hn; apply Keep0; eauto|].
+    assert (Keep : forall c1', (exists v, nth c1' (iol s) None = Some v) -> c1' <> c1 -> In (S c1') (remove_all (S c1) pend)).
+    { intros c1' Hv Hne. apply Keep0; auto. }
+    destruct (Nat.leb_spec (length (iol s)) c1) as [Hlen|Hlen].
+    { intros Q. inversion Q; subst. simpl. constructor; auto. intros c1' idx Hn. apply Keep; eauto.
+      apply nth_some_lt in Hn. lia. }
+    destruct (nth c1 (iol s) None) as [idx|] eqn:Hc.
+    2:{ intros Q. inversion Q; subst. simpl. constructor; auto. intros c1' idx Hn. apply Keep; eauto. congruence. }
+    pose proof (handle_in_use _ _ _ _ _ I Hc) as Hu. pose proof (in_use_lt _ _ Hu) as Hlt.
+    destruct (Nat.leb_spec (length (tab (io_adf s))) idx); [lia|].
+    destruct (adfi_close_file FixA fuel (io_adf s) idx) as [[a1 e]|] eqn:Cl; [|discriminate].
+    destruct (handles_upd_none _ _ _ Hc) as [A B].
+    assert (I' : Inv w (io_adf s) (idx :: handles (upd (iol s) c1 None)) []).
+    { apply (Inv_U w _ (handles (iol s))); auto. }
+    destruct (close_machine_ok _ _ _ _ _ _ _ I' Cl) as [-> I1]. simpl.
+    intros Q. inversion Q; subst. simpl.
+    destruct (Nat.eqb_spec (nopen s - 1) 0) as [E0|E0].
+    + assert (Hnil : handles (upd (iol s) c1 None) = []) by (apply length_zero_iff_nil; lia).
+      rewrite Hnil in I1. constructor; simpl; auto. intros c1' idx'. destruct c1'; discriminate.
+    + constructor; simpl; auto; try lia.
+      intros c1' idx' Hn. destruct (Nat.eq_dec c1' c1) as [->|Hne].
+      * rewrite nth_upd_eq in Hn by lia. discriminate.
+      * rewrite nth_upd_neq in Hn by auto. apply Keep; eauto.
+Qed.
+
+Lemma run_inv w fuel ops : forall s pend s' pend' rs,
+  IOInv w s pend -> run FixA fuel w s pend ops = Some (s', pend', rs) -> IOInv w s' pend'.
+Proof.
+  induction ops as [|o r IH]; intros s pend s' pend' rs H; simpl.
+  - intros Q. inversion Q; subst. exact H.
+  - destruct (step FixA fuel w s o) as [[s1 x]|] eqn:St; [|discriminate].
+    destruct (run FixA fuel w s1 (track pend o x) r) as [[[s2 p2] xs]|] eqn:Rn; [|discriminate].
+    intros Q. inversion Q; subst. eapply IH; [|exact Rn]. eapply step_inv; eauto.
+Qed.
+
+Lemma Inv_init w : Inv w (mkadf [] []) [] [].
+Proof.
+  assert (S0 : forall i, slot_at (mkadf [] []) i = free_slot) by (intros [|i]; reflexivity).
+  constructor.
+  - intros x. rewrite S0. reflexivity.
+  - intros i _. apply S0.
+  - intros i H. rewrite S0 in H. simpl in H. congruence.
+  - intros n. reflexivity.
+  - intros ? ? [].
+  - intros i j ni nj H. rewrite S0 in H. simpl in H. congruence.
+Qed.
+
+Lemma IOInv_init w : IOInv w io_init [].
+Proof. constructor; simpl; auto. apply Inv_init. intros c1 idx. destruct c1; discriminate. Qed.
+
+(* The positive theorem for the repaired ADFI_close_file *)
+Theorem balanced_fixed : forall w rank fuel ops s rs,
+  acyclic w rank -> run FixA fuel w io_init [] ops = Some (s, [], rs) -> clean s.
+Proof.
+  intros w rank fuel ops s rs Hac Rn.
+  pose proof (run_inv _ _ _ _ _ _ _ _ (IOInv_init w) Rn) as [I C Z P].
+  assert (Hh : handles (iol s) = []).
+  { apply handles_all_none. intros c. destruct (nth c (iol s) None) eqn:E; auto. exfalso. eapply P; eauto. }
+  rewrite Hh in I, C. simpl in C. specialize (Z C).
+  pose proof (acyclic_all_idle _ _ _ I Hac) as Idle.
+  unfold clean. repeat split; auto.
+  apply all_cnt_zero_nil. intros n. rewrite (inv_L _ _ _ _ I). apply tsum_zero. intros i. unfold gn.
+  rewrite Idle. reflexivity.
+Qed.
+
+(* ============================================================================================ failing opens *)
+(* a failing cgio_open_file leaves the ledger exactly as it was: both variants, any state *)
+Theorem failing_open_ledger : forall v fuel w s n rw s',
+  cgio_open_file v fuel w s n rw = Some (s', None) -> ledger (io_adf s') = ledger (io_adf s).
+Proof.
+  intros v fuel w s n rw s'. unfold cgio_open_file.
+  assert (G : match adf_database_open v fuel w (io_adf s) n rw with
+         | None => None
+         | Some (a1, None) => Some (mkio a1 (iol s) (nopen s), None)
+         | Some (a1, Some idx) =>
+             let l0 := match iol s with [] => repeat None 5 | l => l end in
+             let k := first_none l0 in
+             let l1 := if k <? length l0 then l0 else l0 ++ [None] in
+             Some (mkio a1 (upd l1 k (Some idx)) (S (nopen s)), Some (S k))
+         end = Some (s', None) -> ledger (io_adf s') = ledger (io_adf s)).
+  { destruct (adf_database_open v fuel w (io_adf s) n rw) as [[a1 [idx|]]|] eqn:Op; try discriminate.
+    intros Q. inversion Q; subst. simpl. eapply adf_open_fail_ledger; eauto. }
+  destruct (kind_of w n); try exact G; intros Q; inversion Q; reflexivity.
+Qed.
+
+(* the same for the file a link traversal tries to open (ADFI_link_open) *)
+Theorem failing_link_open_ledger : forall v fuel w a n a',
+  adf_database_open v fuel w a n true = Some (a', None) -> ledger a' = ledger a.
+Proof. intros. eapply adf_open_fail_ledger; eauto. Qed.
+
+(* ============================================================================================ the code as it is *)
+(* W1: B = F1 has /D; A = F0 links to B; C = F2 links to A.  A is opened once, C twice; both C handles read through A
+   (the first one on to B).  Closing the first C handle closes B although A (still open, still linking to it) remains;
+   closing A then reports ADF_FILE_NOT_OPENED (its links[] names the dead slot) AFTER having dropped A's reference, so
+   cgio keeps the slot: every file has been closed by its user and one cgio handle is held for ever. *)
+Definition w1 : world := mkW [KOk; KOk; KOk] [(0, 1); (2, 0)].
+Definition ops1 : list op :=
+  [OOpen 0 false; OOpen 2 false; OOpen 2 false; OWalk 2 [0; 1]; OWalk 3 [0]; OClose 2; OClose 1; OClose 3].
+
+Lemma refuted_shared_link :
+  exists s rs, run Faithful 1000 w1 io_init [] ops1 = Some (s, [], rs) /\
+               nth 5 rs (ResWalk false) = ResClose ROk /\
+               nth 6 rs (ResWalk false) = ResClose (RAdf ADF_FILE_NOT_OPENED) /\
+               nopen s = 1 /\ iol s <> [] /\ ~ clean s.
+Proof.
+  eexists. eexists. split; [vm_compute; reflexivity|]. repeat split; try (vm_compute; reflexivity).
+  - vm_compute. discriminate.
+  - intros (_ & _ & H & _). vm_compute in H. discriminate.
+Qed.
+
+(* the moment of the premature close: A (slot 0) is in use and lists slot 2 in links[], slot 2 (B) is closed *)
+Lemma refuted_premature_close :
+  exists s rs, run Faithful 1000 w1 io_init [] [OOpen 0 false; OOpen 2 false; OWalk 2 [0; 1]; OClose 2] = Some (s, [1], rs) /\
+               in_use (slot_at (io_adf s) 0) = 1 /\ links (slot_at (io_adf s) 0) = [2] /\
+               in_use (slot_at (io_adf s) 2) = 0 /\ ledger (io_adf s) = [0].
+Proof. eexists. eexists. repeat split; vm_compute; reflexivity. Qed.
+
+(* W2: two files that link to each other.  ADFI_close_file never returns, whatever the fuel (the C: stack overflow). *)
+Definition w2 : world := mkW [KOk; KOk] [(0, 1); (1, 0)].
+Definition ops2 : list op := [OOpen 0 false; OWalk 1 [1; 0]; OClose 1].
+Definition a2 : adf := mkadf [mkslot 2 true (Some 0) [1]; mkslot 1 true (Some 1) [0]; free_slot; free_slot; free_slot] [1; 0].
+
+Definition top_ok (stk : list frame) : Prop :=
+  match stk with
+  | FEnter 0 :: _ | FEnter 1 :: _ | FLoop 0 0 :: _ | FLoop 1 0 :: _ => True
+  | _ => False
+  end.
+
+Lemma cycle_diverges fuel : forall stk e, top_ok stk -> exists m, loopN (cm_step Faithful) fuel (mkcm a2 stk e) = inl m.
+Proof.
+  induction fuel as [|fuel IH]; intros stk e H; [eexists; reflexivity|].
+  destruct stk as [|[[|[|i]]|[|[|i]] [|k]] rest]; simpl in H; try contradiction; simpl; unfold cm_step; simpl; apply IH; exact I.
+Qed.
+
+Lemma refuted_cycle : forall fuel, run Faithful fuel w2 io_init [] ops2 = None.
+Proof.
+  intros fuel. unfold ops2. cbn -[cgio_close_file].
+  assert (E : cgio_close_file Faithful fuel (mkio a2 [Some 0; None; None; None; None] 1) 1 = None).
+  { unfold cgio_close_file. cbn -[adfi_close_file]. unfold adfi_close_file.
+    destruct (cycle_diverges fuel [FEnter 0] 0 I) as [m ->]. reflexivity. }
+  change (match
+    match cgio_close_file Faithful fuel (mkio a2 [Some 0; None; None; None; None] 1) 1 with
+    | Some (s1, r) => Some (s1, ResClose r)
+    | None => None
+    end
+  with
+  | Some (s1, x) =>
+      match run Faithful fuel w2 s1 (track [1] (OClose 1) x) [] with
+      | Some (s2, p2, xs) => Some (s2, p2, ResOpen (Some 1) :: ResWalk true :: x :: xs)
+      | None => None
+      end
+  | None => None
+  end = None) || idtac.
+  try rewrite E. try reflexivity.
+Qed.
+
+(* the repair FixA terminates on W2 but the two files then keep each other open: a reference-count cycle *)
+Lemma fixA_cycle_leaks :
+  exists s rs, run FixA 1000 w2 io_init [] ops2 = Some (s, [], rs) /\ ledger (io_adf s) = [1; 0] /\
+               in_use (slot_at (io_adf s) 0) = 1 /\ in_use (slot_at (io_adf s) 1) = 1 /\ iol s = [].
+Proof. eexists. eexists. repeat split; vm_compute; reflexivity. Qed.
+
+(* and FixA on W1: every close succeeds and nothing is left *)
+Lemma fixA_w1_clean : exists s rs, run FixA 1000 w1 io_init [] ops1 = Some (s, [], rs) /\ cleanb s = true /\
+  forallb (fun r => match r with ResClose ROk | ResOpen (Some _) | ResWalk true => true | _ => false end) rs = true.
+Proof. eexists. eexists. repeat split; vm_compute; reflexivity. Qed.
